@@ -37,9 +37,11 @@ func (drv) Open(string) (driver.Conn, error) { return nil, fmt.Errorf("use the c
 
 type conn struct{ t *tracesTable }
 
-func (c *conn) Prepare(q string) (driver.Stmt, error) { return nil, fmt.Errorf("prepare not supported") }
-func (c *conn) Close() error                          { return nil }
-func (c *conn) Begin() (driver.Tx, error)             { return nil, fmt.Errorf("no tx") }
+func (c *conn) Prepare(q string) (driver.Stmt, error) {
+	return nil, fmt.Errorf("prepare not supported")
+}
+func (c *conn) Close() error              { return nil }
+func (c *conn) Begin() (driver.Tx, error) { return nil, fmt.Errorf("no tx") }
 
 var (
 	reUnhex  = regexp.MustCompile(`trace_id\)? *==? *\(?unhex\('([^']*)'\)`)
